@@ -194,6 +194,7 @@ def generate(problems):
     pcls = _find(util.body, ast.ClassDef, "Path")
     init = _find(pcls.body, ast.FunctionDef, "__init__") if pcls else None
     fc_checks = []
+    fc_parent = ""
     cif = _find_if(init.body, "'c' in mode") if init else None
     if cif is None or ast.unparse(cif.test) != "'c' in mode":
         problems.append("SaveOrder: `if 'c' in mode` block not found in Path.__init__")
@@ -201,6 +202,13 @@ def generate(problems):
         for st in cif.body:
             if isinstance(st, ast.If) and any(isinstance(x, ast.Raise) for x in st.body):
                 fc_checks.append(ast.unparse(st.test))
+        # which directory is "the parent": first assignment to pdir in the block
+        for st in cif.body:
+            if isinstance(st, ast.Assign) and len(st.targets) == 1 and isinstance(st.targets[0], ast.Name) and st.targets[0].id == "pdir":
+                fc_parent = ast.unparse(st.value)
+                break
+        else:
+            problems.append("SaveOrder: assignment to pdir not found in the 'c' block of Path.__init__")
 
     body = "namespace Jap.Gen.SaveOrder\n"
     body += "def overwriteDefault : Bool := %s\n" % ("true" if dflt["overwrite"] else "false")
@@ -210,6 +218,7 @@ def generate(problems):
     body += "def multiSteps : List String := %s\n" % lean_str_list(multi)
     body += "def subCfgSteps : List String := %s\n" % lean_str_list(sub_cfg)
     body += "def subContentSteps : List String := %s\n" % lean_str_list(sub_content)
+    body += "def pathCreatableParent : String := %s\n" % lean_str(fc_parent)
     body += "def pathCreatableChecks : List String := %s\n" % lean_str_list(fc_checks)
     body += "end Jap.Gen.SaveOrder\n"
     write_if_changed("SaveOrder.lean", body)
